@@ -214,6 +214,12 @@ def search(ctx):
     for k, (first, second) in enumerate([("pixee:python/use-defusedxml", "pixee:python/secure-random"), ("pixee:python/use-defusedxml", "pixee:python/sandbox-process-creation"),
                           ("pixee:python/harden-pickle-load", "pixee:python/secure-random")][: ctx.pick(2, 3)]):
         cases.append({"pair": (first, second), "seed": rng.randint(0, 10**9), "extra_files": {"setup.py": SETUP}, "tag": "setup-py-manifest", "disjoint": k == 0 or rng.random() < 0.5})
+    # the first codemod rewrites setup.py itself, its dependency is then written into setup.py by the manifest writer,
+    # and the second codemod rewrites setup.py again: it must start from what is on disk
+    SETUP2 = ('import random\nimport xml.etree.ElementTree as ET\nfrom setuptools import setup\n\nsetup(\n    name="x",\n    version="0.1",\n    install_requires=[\n        "requests",\n    ],\n)\n\n'
+              'tree = ET.parse("pkg.xml")\nlabel = f"static label"\ntoken = random.random()\n')
+    for first, second in [("pixee:python/use-defusedxml", "pixee:python/remove-unnecessary-f-str"), ("pixee:python/use-defusedxml", "pixee:python/secure-random")][: ctx.pick(2, 2)]:
+        cases.append({"pair": (first, second), "seed": rng.randint(0, 10**9), "extra_files": {"setup.py": SETUP2}, "tag": "setup-py-rewritten-twice", "disjoint": True})
     from codemodder.codemods.semgrep import SemgrepRuleDetector
     from codemodder.registry import load_registered_codemods
     sg = {c.id for c in load_registered_codemods().codemods if isinstance(c.detector, SemgrepRuleDetector)}
